@@ -69,13 +69,12 @@ impl Path {
             }
         }
 
-        let cs_cell = OnceCell::new();
-        let _ = cs_cell.set(cs);
-
+        // The text form is always generated from the components (and the relative flag),
+        // so that equal paths print and hash the same way.
         Path {
             components,
             is_relative,
-            components_string: cs_cell,
+            ..Default::default()
         }
     }
 
